@@ -10,7 +10,10 @@ from `set_representation`, the integrals from the quadrature); cumulants 1, 2, 4
 integral (e^x - 1) nu(dx) = r - d; Markov-chain drift + sum x_k rate_k = drift() + mean of the truncated process; round trips.
 C + S through theorems (closed_form_probe): the coded exponents and cumulants of HEM / Merton / Black-Scholes against M's exact rational
 terms, which Proofs/C10.lean proves to be the Lévy–Khintchine integral of the density resp. the derivatives of the cumulant generating
-exponent.  Edge-of-constraint parameters of every family through every probe (edge_stream / edge_probe).
+exponent.  Edge-of-constraint parameters of every family through every probe (edge_stream / edge_probe); parameters NEXT TO (not on)
+every special value at which the families' formulas switch branch or a constraint ends (near_stream: CGMY y = 1 +- / 0 +- / -1 +- offset,
+offset from 1e-3 down to 1e-9, g != m; p, intensity, sigma, mu_j, theta next to 0 / 1) through every probe: they are ordinary members of
+the family, the special-case formulas are not their limit.
 S over construction routes and orders (construction_probe): a plain Lévy model from the factory / the class / a re-initialised parameter
 object / inside a family exponential model, re-expressed in other representations and only THEN wrapped with the generic public constructor
 ExponentialOfLevyModel(spot, r, d, levy_model), converted further, wrapped again under another market; the family class built from the SAME
@@ -45,7 +48,10 @@ RULE = ("models: defaults of HEM / Merton / VG / CGMY / Black-Scholes, every CGM
         "parameter edited, initialisation(), edited back, initialisation(): the calibration idiom); edge-of-constraint models through every "
         "probe (HEM p = 1, intensity = 0, sigma = 0, eta1 in {1.0625, 1.25, 1.5}; Merton mu_j = 0, intensity = 0, sigma = 0, sigma_j = 2^-6; "
         "VG theta = 0, nu in {2^-7, 4}; Black-Scholes sigma = 0; CGMY g = 0 / m = 0 with 1 < y < 2 on the half plane where the exponent "
-        "exists; see edge_stream for what is not generated and why); exponent: complex u on a grid with |Im u| <= 1 (inside the strip of "
+        "exists; see edge_stream for what is not generated and why); models next to a special value without being on it (near_stream: CGMY "
+        "y = 1 +- off and y = 0 +- off with one off in {1e-3, 1e-5} and one in {4e-6, 1e-7, 1e-9} per side, y = -1 +- off, g != m; three of HEM p = 0 + / "
+        "1 -, intensity = 0 +, sigma = 0 +, Merton mu_j / intensity / sigma = 0 +, VG theta = 0 +-, Black-Scholes sigma = 0 + per run; thorough: all "
+        "points x sides x offsets) through every probe, classified by EXACT comparison (y = 1 - 1e-9 is class 0<y<1, not y=1); exponent: complex u on a grid with |Im u| <= 1 (inside the strip of "
         "analyticity), every representation admissible for the measure (ZERO only with finite variation); closed forms of HEM / Merton / "
         "Black-Scholes (incl. a pure diffusion with non-zero drift): dyadic real s in (-eta2, eta1) (HEM; two of them within 0.5 of a pole) "
         "resp. (-12, 12), dyadic complex w = u + i v with |u| <= 10 and -v in the strip, cumulants 1, 2, 4, 6 (Black-Scholes 1..6) at "
@@ -78,6 +84,10 @@ NOT_PROVED = [
     "modelled in M (M's omega takes the ORIGINAL drift; that the wrapper reads the original and not the current triplet drift is only compared: "
     "cf(-i) = forward, drift() = r - d - psi(-i) against a fresh model and against the quadrature of the current triplet, omega / cf against the "
     "freshly built family model, chain drift against the martingale drift of the fresh model)",
+    "parameters next to the special values (near_stream) are sampled (fixed offsets 1e-3 .. 1e-9 on each admissible side), not covered: a "
+    "special-case band narrower than 1e-9 is not seen, nor are CGMY y -> 2, g, m -> 0 / 1, HEM eta1 -> 1 closer than edge_stream goes "
+    "(reasons at NEAR_POINTS); arguments u next to 0 are not generated (2e-10 absolute is vacuous there; the derivatives at 0 are the "
+    "cumulant probe's subject)",
     "Merton's first / second moment of the density = first / second derivative of the jump exponent (merton_moment_eq_deriv) is proved under C09's "
     "hypotheses on erf (derivative 2/sqrt(pi) e^{-x^2}, limits +-1); HEM's (hem_moment_eq_deriv) unconditionally",
 ]
@@ -85,6 +95,12 @@ ASSUMPTIONS = [
     "tolerances measured over seeds 0..5 with a 10x margin: exponent vs quadrature 2e-10*(1+|psi|+|u||drift terms|), cumulants 1e-9 relative to "
     "the scale of the terms, forward 1e-11 relative, drifts 1e-10, chain mean 1e-8; closed forms vs M 2^-40 (observed <= 4e-4 of it)",
     "ZERO representation is only exercised for finite-variation measures (m1(-1,1) is infinite otherwise)",
+    "float evaluation of the closed forms next to removable singularities (fp_allowance): the comparison with the quadrature concedes "
+    "16 * 2^-52 * (sum of the magnitudes of the terms) of CGMY's general formula c Gamma(-y) [...] and of the closed-form first moments "
+    "c (...) / (y - 1) behind set_representation: ~1e-13 for ordinary y, 2e-8 at |y - 1| = 4e-6, 3e-4 at |y - 1| = 1e-9, 7e-6 at y = 1e-9 "
+    "(measured error of the unchanged tree <= 4% of it: 7e-10, 2e-6, 2e-7); a special-case formula applied next to its special value is "
+    "off by c |u| |log(m/g)| resp. c |u| |1/m - 1/g| (~0.01..3), three orders of magnitude above the allowance at 1e-9 and more above it "
+    "further away; closer than ~1e-11 to a pole of Gamma(-y) the comparison is blind",
     "construction routes: drift() / omega against a freshly built model 1e-12 * (1 + |psi(-i)| + |a| + |m1(-1,1)| + |m1(tails)|) (observed: equal), "
     "against the quadrature of the current triplet 2e-10 of the same scale, cf 1e-11 relative; the direct-simulation statement is demanded of "
     "every exponential model LevyProcess can simulate directly (the generic wrapper fails it on the unchanged tree: known finding "
@@ -94,6 +110,8 @@ ASSUMPTIONS = [
     "(the HEM density is 0 at 0, so R and R \\ {0} agree); hypotheses eta1, eta2 > 0, sigma_j > 0 are the constructors' constraints",
 ]
 TRUSTED = ["mpmath.quad (tanh-sinh) with its own error estimate", "the model's density __call__ as the definition of nu",
+           "for a CGMY activity index within 2^-6 of 1: the 25-digit transcription c e^{-m|x|} / |x|^(1+y) of that density, used only after it "
+           "agreed with __call__ at 2^-43 relative on six points (hp_density)",
            "mpmath.expint (generalised exponential integral) for the analytic tail of an un-tempered CGMY side",
            "mpmath exp / cos / sin at 40 digits on M's exact rational argument (Merton closed form)"]
 
@@ -130,7 +148,41 @@ def make(fam, params, exp=False, **kw):
 
 
 # ------------------------------------------------------------------------------------------------- quadrature of nu
+EPS = 2.0 ** -52
+HP_BAND = 2.0 ** -6      # |y - 1| below which x nu(x) of a CGMY measure is so close to non-integrable at 0 that float noise spoils the quadrature
+
+
+def hp_density(nu):
+    """25-digit transcription c e^{-m x} / x^{1+y} (x > 0), c e^{-g |x|} / |x|^{1+y} (x < 0) of a CGMY density whose activity index is
+    within HP_BAND of 1, or None.  Next to y = 1 the first moment over (-1, 1) is the difference of two one-sided integrals of size
+    c / |1 - y|; the two sides are integrated together (first_moments) and the difference nu(x) - nu(-x) must not carry the 2^-52
+    relative noise of the float density (the quadrature's error estimate would report it as non-convergence).  The transcription is
+    used only if it agrees with the model's own `__call__` (the definition of nu) at 2^-43 relative on sample points of both sides."""
+    prm = getattr(nu, "parameters", None)
+    if prm is None or not all(hasattr(prm, k) for k in ("c", "g", "m", "y")) or not abs(float(prm.y) - 1.0) < HP_BAND:
+        return None
+    c, g, m, y = (mp.mpf(float(getattr(prm, k))) for k in ("c", "g", "m", "y"))
+
+    def f(x):
+        x = mp.mpf(x)
+        if abs(x) < mp.mpf(10) ** -100:
+            return mp.mpf(0)
+        return c * mp.exp(-(m if x > 0 else g) * abs(x)) / abs(x) ** (1 + y)
+    try:
+        for x in (2.0 ** -10, 0.3, 2.0, -2.0 ** -10, -0.3, -2.0):
+            v = float(nu(x))
+            if not abs(v - f(x)) <= 2.0 ** -43 * abs(f(x)):
+                return None
+    except Exception:
+        return None
+    return f
+
+
 def _dens(nu):
+    hp = hp_density(nu)
+    if hp is not None:
+        return hp
+
     def f(x):
         xf = float(x)
         if abs(xf) < 1e-100:
@@ -140,15 +192,45 @@ def _dens(nu):
     return f
 
 
-def quad_against(nu, g, pts):
-    """integral of g(x) nu(x) dx over the consecutive break points; returns (value, estimated error)"""
-    d = _dens(nu)
+def quad_fn(f, pts):
+    """integral of f over the consecutive break points; returns (value, estimated error)"""
     tot, err = mp.mpc(0), mp.mpf(0)
     for a, b in zip(pts, pts[1:]):
-        v, e = mp.quad(lambda x: g(x) * d(x), [a, b], error=True)
+        v, e = mp.quad(f, [a, b], error=True)
         tot += v
         err += e
     return tot, float(err)
+
+
+def quad_against(nu, g, pts):
+    """integral of g(x) nu(x) dx over the consecutive break points; returns (value, estimated error)"""
+    d = _dens(nu)
+    return quad_fn(lambda x: g(x) * d(x), pts)
+
+
+def fp_allowance(m, fam, uc, conversions=True):
+    """absolute float-evaluation noise that the comparison with the Lévy–Khintchine integral concedes to the closed form of the
+    exponent (and, `conversions`, to the closed-form first moments behind set_representation): 16 * 2^-52 * (sum of the magnitudes of
+    the terms of the formula).  Away from removable singularities this is ~1e-13 and irrelevant next to 2e-10 * scale.  CGMY general
+    branch: c Gamma(-y) [(g+x)^y - x y g^(y-1) + (m-x)^y + x y m^(y-1) - g^y - m^y], x = i u: Gamma(-y) has poles at y = 0, 1, 2 where
+    the bracket vanishes (y = 0, 1) - the value is regular, the float evaluation loses ~ 2^-52 / |y - y0| (measured on the unchanged
+    tree: 7e-10 at y = 1 + 4e-6, 2e-6 at y = 1 + 1e-9, 2e-7 at y = 1e-9); first moments: c (h^(1-y) e^(-u h) - u^(y-1) Gamma(2-y)
+    Q(2-y, u h)) / (y - 1), a difference of two sides of size c / |1 - y|.  Other families: no removable singularity in the formulas."""
+    if fam != "cgmy":
+        return 0.0
+    try:
+        p = m.parameters
+        c, g, mm, y = (float(getattr(p, k)) for k in ("c", "g", "m", "y"))
+        if y in (0.0, 1.0) or y >= 2.0:
+            return 0.0
+        x = 1j * complex(uc)
+        terms = (abs(g + x) ** y + abs(x * y) * g ** (y - 1) + abs(mm - x) ** y + abs(x * y) * mm ** (y - 1) + g ** y + mm ** y)
+        a = c * abs(math.gamma(-y)) * terms
+        if conversions:
+            a += abs(complex(uc)) * 4 * c * math.gamma(2 - y) * (g ** (y - 1) + mm ** (y - 1) + 2) / abs(1 - y)
+        return 16 * EPS * a if math.isfinite(a) else 0.0
+    except (ZeroDivisionError, OverflowError, ValueError):
+        return 0.0
 
 
 PTS = [-mp.inf, -1, mp.mpf(-1) / 8, 0, mp.mpf(1) / 8, 1, mp.inf]
@@ -177,7 +259,7 @@ def first_moments(nu, fv, lo=None, hi=None):
             return None
         return [a] + [p for p in pts if a < p < b] + [b]
 
-    def refine(pts):
+    def refine(pts, mirror=False):
         if pts is None:
             return None
         """break points at the features of the density (a narrow Merton jump law far from 0 is missed by a quadrature that only
@@ -189,6 +271,8 @@ def first_moments(nu, fv, lo=None, hi=None):
         mu, sg = getattr(prm, "mu_j", None), getattr(prm, "sigma_j", None)
         if mu is not None and sg:
             feats = [mp.mpf(float(mu) + k * float(sg)) for k in (-8, -4, -2, -1, 0, 1, 2, 4, 8)]
+            if mirror:
+                feats = sorted(set(feats + [-f for f in feats]))
         out = []
         for a, b in zip(pts, pts[1:]):
             seg = [a]
@@ -202,8 +286,22 @@ def first_moments(nu, fv, lo=None, hi=None):
     g = lambda x: x
     mid, e1 = (None, 0.0)
     if fv:
-        seg_mid = refine(clip([mp.mpf(-1), mp.mpf(-1) / 8, mp.mpf(0), mp.mpf(1) / 8, mp.mpf(1)]))
-        mid, e1 = quad_against(nu, g, seg_mid) if seg_mid else (mp.mpc(0), 0.0)
+        # the two sides of the origin together over the symmetric part (-s, s) of the clipped middle: x (nu(x) - nu(-x)).  Each side
+        # alone is c / (1 - y) for an activity index y next to 1 (x nu(x) ~ x^-y is all but non-integrable: no quadrature converges on
+        # it), the sum is regular; what is left of an asymmetric clip is integrated one-sided, away from the origin
+        a_, b_ = (mp.mpf(-1), mp.mpf(1)) if lo is None else (max(mp.mpf(lo), mp.mpf(-1)), min(mp.mpf(hi), mp.mpf(1)))
+        if a_ < 0 < b_:
+            s = min(-a_, b_)
+            d = _dens(nu)
+            mid, e1 = quad_fn(lambda x: x * (d(x) - d(-x)), refine([mp.mpf(0), s / 8, s], mirror=True))
+            for seg in ([s, b_] if b_ > s else None, [a_, -s] if -a_ > s else None):
+                if seg:
+                    v, e = quad_against(nu, g, refine(seg))
+                    mid += v
+                    e1 += e
+        else:
+            seg_mid = refine(clip([mp.mpf(-1), mp.mpf(-1) / 8, mp.mpf(0), mp.mpf(1) / 8, mp.mpf(1)]))
+            mid, e1 = quad_against(nu, g, seg_mid) if seg_mid else (mp.mpc(0), 0.0)
     left = clip([-mp.inf, mp.mpf(-4), mp.mpf(-1)]) if lo is None or lo < -1 else None
     right = clip([mp.mpf(1), mp.mpf(4), mp.inf]) if hi is None or hi > 1 else None
     tails, e2 = mp.mpc(0), 0.0
@@ -313,9 +411,10 @@ def exponent_probe(ctx, fam, params, us):
                 j = i0 - 1j * uc * tails_q
             lk = 1j * uc * drifts[rep] - 0.5 * sigma * sigma * uc * uc + j
             scale = 1 + abs(lk) + abs(uc) * (abs(drifts[rep]) + abs(mid_q or 0.0) + abs(tails_q))
+            allow = fp_allowance(m, fam, uc)
             if not (fam == "cgmy" and yb in ("y<0", "y=0", "y=1")):
-                track(ctx, "exponent_vs_lk", abs(impl - lk), 2e-10 * scale)
-            if not abs(impl - lk) <= 2e-10 * scale:
+                track(ctx, "exponent_vs_lk", abs(impl - lk), 2e-10 * scale + allow)
+            if not abs(impl - lk) <= 2e-10 * scale + allow:
                 cls = dict(family=fam, ybranch=yb, rep=rep.name)
                 mirrors = None
                 if fam == "cgmy" and yb in ("y<0", "y=0", "y=1"):
@@ -323,7 +422,7 @@ def exponent_probe(ctx, fam, params, us):
                     p = m.parameters
                     m1 = (mid_q or 0.0) + tails_q
                     pred = {"y<0": -1j * uc * m1, "y=0": 1j * uc * m1, "y=1": 1j * uc * p.c * math.log(p.g / p.m)}[yb]
-                    mirrors = bool(abs(impl - lk - pred) <= 2e-10 * (scale + abs(pred)))
+                    mirrors = bool(abs(impl - lk - pred) <= 2e-10 * (scale + abs(pred)) + allow)
                 ctx.fail("oracle", "c10.exponent_vs_lk", dict(desc, rep=rep.name),
                          {"levy_exponent": [impl.real, impl.imag], "levy_khintchine_quadrature": [lk.real, lk.imag],
                           "drift_of_representation": drifts[rep], "difference": abs(impl - lk), "quadrature_error_estimate": e0 + em,
@@ -402,8 +501,9 @@ def exponent_after_walk_probe(ctx, fam, params, walk, q, spot, r, d):
                 now = complex(lm.levy_exponent(u))
                 lk = lk_value(u, a_now, sigma, trip.representation, q, i0s[u])
                 scale = 1 + abs(lk) + abs(u) * (abs(a_now) + abs(q["mid"] or 0.0) + abs(q["tails"]))
-                track(ctx, "exponent_after_walk.lk", abs(now - lk), 2e-10 * scale)
-                if not abs(now - lk) <= 2e-10 * scale:
+                allow = fp_allowance(lm, fam, u)
+                track(ctx, "exponent_after_walk.lk", abs(now - lk), 2e-10 * scale + allow)
+                if not abs(now - lk) <= 2e-10 * scale + allow:
                     ctx.count("c10.exponent_after_walk", desc, nontrivial=True, branch=fam)
                     ctx.fail("oracle", "c10.exponent_after_walk", dict(desc, step=i, u=[u.real, u.imag]),
                              {"what": "after set_representation, levy_exponent(u) != Lévy–Khintchine integral of the CURRENT triplet "
@@ -447,9 +547,10 @@ def cumulant_probe(ctx, fam, params):
     N = 64
     s = rho * np.exp(2j * np.pi * np.arange(N) / N)
     vals = np.array([complex(m.levy_exponent(-1j * sj)) for sj in s])
+    noise = max(fp_allowance(m, fam, -1j * sj, conversions=False) for sj in s[::8])     # float noise of the exponent on the circle
     for k in (1, 2, 4):
         deriv = math.factorial(k) * np.mean(vals / s ** k)
-        scale = math.factorial(k) * np.mean(np.abs(vals)) / rho ** k
+        scale = math.factorial(k) * (np.mean(np.abs(vals)) + noise / 1e-9) / rho ** k
         for t in (1.0, 2.5):
             desc = dict(family=fam, params=params, k=k, t=t)
             try:
@@ -570,7 +671,9 @@ def routes_probe(ctx, fam, params, spot, r, d):
     # ---- cf route (C): omega and drift() are M's
     k1 = complex(lm.levy_exponent_pure_jump(1.0)).real
     om = rd(ctx.lean(f"omega {w(a0)} {w(sigma)} {w(k1)}"))
-    sc = abs(fr(a0)) + fr(sigma) ** 2 / 2 + abs(fr(k1)) + Fraction(1, 2 ** 60)
+    # (omega is the exponent at the complex argument -i, k1 the pure-jump exponent at the real argument 1.0: two float evaluations of the
+    # same formula, each with the noise fp_allowance describes)
+    sc = abs(fr(a0)) + fr(sigma) ** 2 / 2 + abs(fr(k1)) + Fraction(1, 2 ** 60) + fr(fp_allowance(lm, fam, -1j, conversions=False)) * 2 ** 40
     if not close(em.omega, om, scale=sc):
         ctx.fail("corr", "c10.omega.model", desc, {"name": "Drivers/C10 omega vs ExponentialOfLevyModel.omega", "impl": float(em.omega),
                                                    "model": float(om)}, cls=cls)
@@ -831,7 +934,7 @@ def construction_probe(ctx, fam, params, plan, spot, r, d, q):
                 return False
             if (-1j) in i0s and not known_branch:
                 lk = lk_value(-1j, a_now, sigma, rep_now, qq, i0s[-1j])
-                tol = 2e-10 * (1 + abs(lk) + abs(a_now) + mom)
+                tol = 2e-10 * (1 + abs(lk) + abs(a_now) + mom) + fp_allowance(lm, fam, -1j)
                 track(ctx, "construction.drift_lk", abs(dr + lk.real - (r_ - d_)), tol)
                 if not abs(dr + lk.real - (r_ - d_)) <= tol:
                     ctx.fail("oracle", "c10.construction.drift", where,
@@ -920,7 +1023,8 @@ def construction_probe(ctx, fam, params, plan, spot, r, d, q):
     a_orig = float(lm._original_drift)
     k1 = complex(lm.levy_exponent_pure_jump(1.0)).real
     om = rd(ctx.lean(f"omega {w(a_orig)} {w(sigma)} {w(k1)}"))
-    if not close(em1.omega, om, scale=abs(fr(a_orig)) + fr(sigma) ** 2 / 2 + abs(fr(k1)) + Fraction(1, 2 ** 60)):
+    if not close(em1.omega, om, scale=abs(fr(a_orig)) + fr(sigma) ** 2 / 2 + abs(fr(k1)) + Fraction(1, 2 ** 60)
+                 + fr(fp_allowance(lm, fam, -1j, conversions=False)) * 2 ** 40):
         ctx.fail("corr", "c10.omega.model", desc, {"name": "Drivers/C10 omega vs ExponentialOfLevyModel.omega (generic wrapper)",
                                                    "impl": float(em1.omega), "model": float(om)}, cls=cls0)
     # ---- Markov-chain route on the generic wrapper as it stands now (declared representation = whatever the walk left)
@@ -1159,10 +1263,62 @@ def edge_stream(rng, thorough):
     return out
 
 
-def edge_probe(ctx, fam, params, restr, rng):
-    """every probe of the check on one edge-of-constraint model"""
+NEAR_OFFSETS = [1e-3, 1e-5, 4e-6, 1e-7, 1e-9]
+# (family, parameter, special value, admissible sides): every parameter value at which the formulas of the five families switch branch
+# (rpylib/model/levymodel/**: cgmy.py `y == 0` / `y == 1.0` in levy_exponent_pure_jump, `y == 1` in cumulant1, `y < 0.0` declared
+# representation, `y < 1.0` finite variation, `alpha == 1.0` / `alpha == 0` / `alpha >= 1` / `y > 0` / `y > 1` / `y < -1` in the measure's
+# integrals) or at which a declared constraint ends (tools/parameter.py `positive` / `strictly_positive`;
+# p in [0, 1]).  HEM / Merton / VG / Black-Scholes have no parameter-valued branch in their formulas, only the constraint ends.
+# Not generated: CGMY y -> 2 (a pole of Gamma(-y) where the exponent itself diverges like 1 / (2 - y): for offsets below ~5e-3
+# exp(t psi(-i)) and exp(-t psi(-i)) leave the float range and their product, the forward, is nan); HEM eta1 -> 1 and CGMY m -> 1 closer than edge_stream's 1.0625 (e^x nu(x) decays like e^{-offset x}: the reference
+# quadrature has no reliable error estimate there); CGMY g, m -> 0 (the exponent's strip shrinks below the argument grid; g = 0 / m = 0
+# themselves are in edge_stream); CGMY c -> 0 (everything is linear in c).
+NEAR_POINTS = [("cgmy", "y", 1.0, "+-"), ("cgmy", "y", 0.0, "+-"), ("cgmy", "y", -1.0, "+-"),
+               ("hem", "p", 0.0, "+"), ("hem", "p", 1.0, "-"), ("hem", "intensity", 0.0, "+"), ("hem", "sigma", 0.0, "+"),
+               ("merton", "mu_j", 0.0, "+"), ("merton", "intensity", 0.0, "+"), ("merton", "sigma", 0.0, "+"),
+               ("vg", "theta", 0.0, "+-"), ("bs", "sigma", 0.0, "+")]
+
+
+def near_stream(rng, thorough):
+    """(family, params, label): ordinary members of the families whose parameter lies NEXT TO a special value without being on it
+    (special value +- offset, offsets NEAR_OFFSETS: two of them inside numpy's default isclose band |x - x0| <= 1e-8 + 1e-5 |x0|, one at
+    its edge, one inside a 1e-8 absolute / 1e-9 relative band).  The other parameters are an ordinary draw (CGMY: g != m, otherwise the
+    centring terms that separate the special-case formulas from the general one vanish).  quick: CGMY y = 1 and y = 0, both sides, one
+    coarse (1e-3, 1e-5) and one fine (4e-6, 1e-7, 1e-9) offset each; one offset of y = -1 +-; three of the other
+    families' constraint ends.  thorough: every point, side and offset."""
+    def base(fam):
+        if fam == "bs":
+            return {"sigma": 0.2}
+        prm = zoo.draw_params(rng, fam, 0.5) if fam == "cgmy" else zoo.draw_params(rng, fam)
+        if fam == "cgmy" and prm["g"] == prm["m"]:
+            prm["m"] = prm["m"] + 0.5
+        return prm
+
+    def one(fam, name, x0, side, off):
+        v = x0 + off if side == "+" else x0 - off
+        return fam, dict(base(fam), **{name: v}), f"{fam}:{name}={x0:g}{side}"
+    out = []
+    if thorough:
+        for fam, name, x0, sides in NEAR_POINTS:
+            for side in sides:
+                out += [one(fam, name, x0, side, off) for off in NEAR_OFFSETS]
+        return out
+    for fam, name, x0, sides in NEAR_POINTS[:2]:
+        for side in sides:
+            out += [one(fam, name, x0, side, rng.choice(NEAR_OFFSETS[:2])), one(fam, name, x0, side, rng.choice(NEAR_OFFSETS[2:]))]
+    out += [one("cgmy", "y", -1.0, rng.choice("+-"), rng.choice(NEAR_OFFSETS))]
+    for fam, name, x0, sides in rng.sample(NEAR_POINTS[3:], 3):
+        out.append(one(fam, name, x0, rng.choice(sides), rng.choice(NEAR_OFFSETS)))
+    return out
+
+
+def edge_probe(ctx, fam, params, restr, rng, label=None):
+    """every probe of the check on one edge-of-constraint (or next-to-a-special-value, `label`) model"""
     us = [u for u in U_GRID if restr is None or (restr == "im<=0" and u.imag <= 0) or (restr == "im>=0" and u.imag >= 0)]
-    ctx.branches[f"c10.edge:{fam}:{'+'.join(sorted(k for k in params if params[k] in (0.0, 1.0)) or ['near'])}"] += 1
+    if label:
+        ctx.branches[f"c10.near:{label}"] += 1
+    else:
+        ctx.branches[f"c10.edge:{fam}:{'+'.join(sorted(k for k in params if params[k] in (0.0, 1.0)) or ['near'])}"] += 1
     q = exponent_probe(ctx, fam, params, us[:4])
     cumulant_probe(ctx, fam, params)
     spot, r, d = 100.0, rng.choice([0.0, 0.02]), rng.choice([0.0, 0.01])
@@ -1235,6 +1391,9 @@ def run(ctx):
     # ---- edge-of-constraint parameters through every probe
     for fam, params, restr in edge_stream(rng, ctx.thorough):
         edge_probe(ctx, fam, params, restr, rng)
+    # ---- parameters next to (not on) every special value of the families' formulas through every probe
+    for fam, params, label in near_stream(rng, ctx.thorough):
+        edge_probe(ctx, fam, params, None, rng, label=label)
     ctx.notes.append("largest observed discrepancy / tolerance per oracle: " +
                      ", ".join(f"{k} {v:.2e}" for k, v in sorted(getattr(ctx, "margins", {}).items())))
 
@@ -1279,3 +1438,7 @@ def search(ctx):
         for _ in range(6):
             walk_probe(ctx, fam, params, draw_walk(rng, fv) + [m.levy_triplet.representation.value])
         routes_probe(ctx, fam, params, 100.0, 0.02, 0.01)
+    for fam, params, label in near_stream(rng, ctx.thorough):
+        ctx.branches[f"c10.near:{label}"] += 1
+        exponent_probe(ctx, fam, params, [-1j, 0.7])
+        cumulant_probe(ctx, fam, params)
